@@ -89,6 +89,12 @@ CLAIMED = {
   "technique": "Lean 4 proof (round-trip law decode (encode m) = some m for all m) + reader/writer correspondence on written and mutated JSON + differential builds of registry worlds",
   "design_ref": "4 C13",
  },
+ "C08": {
+  "text": "Lean 4 theorems on the position arithmetic every reported range goes through, for ALL texts (any non-ASCII characters, any mixture of \\n and \\r\\n, any preceding comments): a position maps back to the offset it came from (offOf_posOf), positions are monotone in the offset so a range holds every position between its ends (posFrom_mono, includes_of_between), the range computed for a match inside a comment slices out of the source exactly quote+specifier+quote, resp. exactly the specifier for quote-less pragmas (commentSpan_covers_quoted / _unquoted), and Dependency::includes returns a range of the dependency that holds the position, and answers whenever one does (depIncludes_sound / _complete). Tied to /repo by correspondence of Position::from_source_pos on sampled offsets of generated texts, PositionRange::includes exhaustively on a grid and Dependency::includes on built modules. 'Every dependency exactly once, nothing else, unescaped text, exact ranges' is decided on the implementation: a generator that knows what it wrote (every dependency-bearing form x 8 media types x trivia with decoys, escapes, astral characters, CRLF/LF, shebang) compares the multiset reported by ParserModuleAnalyzer::analyze_sync and slices every reported range out of the source; the same range check runs on all 503 analysable sources embedded in tests/specs.",
+  "note": "Partial: swc's parser and the DependencyCollector/pragma regexes are NOT modelled in Lean (their output is checked against the generator's ground truth, not proved); the Lean part covers positions, ranges and lookup. Offsets are characters in the model; the harness converts the implementation's byte offsets. Open finding F26 (source-map URL of a token-less file).",
+  "technique": "Lean 4 proof (round trip / monotonicity of positions, exact slicing of comment matches, lookup soundness+completeness) + position correspondence + generator-with-ground-truth oracle on the analyser",
+  "design_ref": "4 C08",
+ },
 }
 NOT_APPLICABLE = {}
 ALL = [f"C{i:02d}" for i in range(1, 21)]
